@@ -226,6 +226,12 @@ def validate_trace(trace_module, cfg, trace_file, name=None, timeout=900, extra_
     env = {"TRACE": trace_file}
     if extra_env:
         env.update(extra_env)
+    # the time grows with the trace (about 3 000 events per second on an idle core): leave a wide margin for a loaded machine
+    try:
+        n_events = sum(1 for _ in open(trace_file))
+    except OSError:
+        n_events = 0
+    timeout = max(timeout, n_events // 300)
     r = run_tlc(trace_module, cfg, workers=1, timeout=timeout, name=name, env=env, deque=True, xmx="4g")
     accepted = r["ok"]
     return accepted, r
